@@ -14,7 +14,14 @@ D2 exit-code table,
 D3 success iff all runs completed; stop at first failure,
 D4 the required-key set the missing-key gate relies on is order-sensitive (C02-D2 rule re-applied);
    the validation gate applies the data-type test to every node that declares an input type and has
-   a typed predecessor (the run-time gate of _DataNode._process is unconditional).
+   a typed predecessor (the run-time gate of _DataNode._process is unconditional);
+   that test answers 'compatible' only for output == input / issubclass(output, input), which is what the
+   run-time gate accepts (C17-D4-validation-accepts-only-gate-accepted).
+Round 4: a requested run-space dry run reaches its gate - the parser stores a value that is truthy for every
+   truthy `dry_run` entry, the CLI writes the entry whenever --run-space-dry-run is given
+   (C17-D1-dry-run-request-reaches-gate); the expansion gate rejects mismatched lengths instead of
+   truncating: every lock-step walk over several sequences in run_space.py is dominated by a raising test
+   that compares their lengths with each other (C17-D1-position-merge-length-guarded).
 """
 from __future__ import annotations
 
@@ -326,8 +333,11 @@ def run(repo: Repo, R: Report) -> None:
     finally:
         R.rule_prefix = ""
     validation_gate_rule(repo, R)
+    compat_test_rule(repo, R)
     runs_share_key_shape_rule(repo, R, fn)
     cap_value_rule(repo, R, fn)
+    dry_run_request_rule(repo, R, fn)
+    position_merge_rule(repo, R)
 
 
 def _anc(n):
@@ -1442,3 +1452,639 @@ def _same_key_both_branches(if_node: ast.AST, store_stmt: ast.AST, dname: str) -
         return any(isinstance(s, ast.Assign) and len(s.targets) == 1 and isinstance(s.targets[0], ast.Subscript) and isinstance(s.targets[0].value, ast.Name) and s.targets[0].value.id == dname and ast.unparse(s.targets[0].slice) == key for s in body)
 
     return stores(if_node.body) and stores(if_node.orelse)
+
+
+# ---------------------------------------------------------------------------------------------
+# D4: what the validation gate accepts, the run-time gate accepts too (round 4)
+# ---------------------------------------------------------------------------------------------
+def _bind_call_args(call: ast.Call, fn: ast.AST) -> Dict[str, ast.AST]:
+    """parameter name -> argument expression of *call* to the (plain) function *fn*."""
+    params = [a.arg for a in fn.args.posonlyargs + fn.args.args]
+    out: Dict[str, ast.AST] = {}
+    for i, a in enumerate(call.args):
+        if i < len(params) and not isinstance(a, ast.Starred):
+            out[params[i]] = a
+    for k in call.keywords:
+        if k.arg:
+            out[k.arg] = k.value
+    return out
+
+
+def compat_test_rule(repo: Repo, R: Report) -> None:
+    """The validation gate stands in for the run-time gate of `_DataNode._process`
+    (`issubclass(type(data), input_type)`, else TypeError): data produced by the predecessor is an instance
+    of its declared output type, so the only verdicts that guarantee the run-time gate lets it through are
+    `output == input` and `issubclass(output, input)`.  Any other accepting answer of the compatibility
+    test lets `semantiva run` start a pipeline whose node raises TypeError after earlier nodes already ran."""
+    from ..engine import qualname_of
+    from ..normal import nfunc
+
+    r = R.rule("C17-D4-validation-accepts-only-gate-accepted", "the compatibility test the data-flow validation applies to (predecessor.output_type, node.input_type) answers 'compatible' only on a path that established output == input or issubclass(output, input) - what the run-time gate issubclass(type(data), input_type) of the node accepts for every instance of the declared output type; it has no other accepting branch (reverse direction, common base, exception fallback)", 1)
+    fname = "_validate_data_flow_compatibility"
+    vmod = repo.module(VALIDATOR)
+    vf = repo.func(VALIDATOR, fname)
+    sites: List[Tuple[ast.Call, ast.AST, str, str]] = []
+    for c in calls_in(vf):
+        for m, node in repo.resolve_call(vmod, c):
+            if not isinstance(node, FuncNode):
+                continue
+            b = _bind_call_args(c, node)
+            outs = [p for p, a in b.items() if isinstance(a, ast.Attribute) and a.attr == "output_type"]
+            ins = [p for p, a in b.items() if isinstance(a, ast.Attribute) and a.attr == "input_type"]
+            if len(outs) == 1 and len(ins) == 1:
+                sites.append((c, node, outs[0], ins[0]))
+                repo.consulted.add(m.rel)
+    if not sites:
+        raise AnalysisError(f"{fname}: no call that tests (<pred>.output_type, <node>.input_type) found")
+    for c, node, p_out, p_in in sites:
+        qn = qualname_of(node)
+        try:
+            ic = nfunc(repo, VALIDATOR, qn, copyprop="all")
+        except Exception:
+            ic = node
+
+        def is_in(e: ast.AST) -> bool:
+            return dotted_name(e) == p_in or (isinstance(e, (ast.Tuple, ast.List)) and len(e.elts) == 1 and dotted_name(e.elts[0]) == p_in)
+
+        def gate(e: ast.AST) -> Optional[bool]:
+            if isinstance(e, ast.Call) and (call_name(e) or "") in ("issubclass", "builtins.issubclass") and len(e.args) == 2 and not e.keywords:
+                if dotted_name(e.args[0]) == p_out and is_in(e.args[1]):
+                    return True
+                return None
+            if isinstance(e, ast.Compare) and len(e.ops) == 1:
+                l, op, rgt = e.left, e.ops[0], e.comparators[0]
+                if {dotted_name(l), dotted_name(rgt)} == {p_out, p_in}:
+                    if isinstance(op, (ast.Eq, ast.Is)):
+                        return True
+                    if isinstance(op, (ast.NotEq, ast.IsNot)):
+                        return False
+                # input in output.__mro__ / output.mro()
+                mro = rgt.func if isinstance(rgt, ast.Call) and not rgt.args else rgt
+                if dotted_name(l) == p_in and isinstance(mro, ast.Attribute) and mro.attr in ("__mro__", "mro") and dotted_name(mro.value) == p_out:
+                    if isinstance(op, ast.In):
+                        return True
+                    if isinstance(op, ast.NotIn):
+                        return False
+            return None
+
+        g = CFG(ic)
+        blocked_edges = {(n.id, lab) for n in g.nodes if n.kind in ("if", "while") and n.part is not None for lab in edges_guaranteeing(n.part, gate)}
+        seen = g.reach([g.entry], blocked_edges=blocked_edges)
+        bad = []
+        for nid in seen:
+            n = g.nodes[nid]
+            if n.kind == "stmt" and isinstance(n.ast, ast.Return):
+                v = n.ast.value
+                falsy = v is None or (isinstance(v, ast.Constant) and not v.value)
+                if not falsy and "T" not in edges_guaranteeing(v, gate):
+                    bad.append(n)
+        bad.sort(key=lambda n: n.line)
+        for n in bad:
+            extra = _non_gate_disjunct(n.ast.value, gate)
+            R.violation(r, VALIDATOR, qn, norm(n.ast)[:110], f"`{norm(n.ast)[:90]}` can answer 'compatible' without {p_out} == {p_in} or issubclass({p_out}, {p_in}) having been established{extra}: validate_pipeline accepts a pipeline whose data the node's run-time gate rejects, `semantiva run` (and --validate: 'Config valid.') lets it through, the nodes in front of the mismatch execute (sink output, trace file) and the run dies with TypeError (exit 4) instead of being rejected up front (exit 3)", n.line, path=g.path_to(seen, n.id))
+        if not bad:
+            R.ok(r, VALIDATOR, qn, f"every accepting return of {qn}({p_out}, {p_in}) is guarded by == or issubclass({p_out}, {p_in})", "", ic.lineno)
+
+
+def _non_gate_disjunct(v: Optional[ast.AST], gate) -> str:
+    """Names the operand of an accepting `or` that is not the run-time gate's condition."""
+    if isinstance(v, ast.BoolOp) and isinstance(v.op, ast.Or):
+        for x in v.values:
+            if "T" not in edges_guaranteeing(x, gate):
+                return f" (alternative `{norm(x)[:70]}`)"
+    return ""
+
+
+# ---------------------------------------------------------------------------------------------
+# D1: a requested run-space dry run reaches the gate `if pipeline_cfg.run_space.dry_run:` (round 4)
+# ---------------------------------------------------------------------------------------------
+DRY_KEY = "dry_run"
+
+
+def _dry_entry(e: ast.AST) -> bool:
+    """`<m>.get("dry_run"[, d])`, `<m>.pop("dry_run"[, d])`, `<m>["dry_run"]`."""
+    if isinstance(e, ast.Call) and isinstance(e.func, ast.Attribute) and e.func.attr in ("get", "pop") and e.args and _const_key(e.args[0], DRY_KEY):
+        return True
+    return isinstance(e, ast.Subscript) and isinstance(e.ctx, ast.Load) and _const_key(e.slice, DRY_KEY)
+
+
+class _TruthFlow:
+    """What an expression evaluates to when the configured entry is *some truthy value* (a dry run was
+    requested): 'T' truthy for every such value, 'F' falsy, 'N' depends on which truthy value it is or on
+    something else (the request is narrowed), 'D' does not depend on the entry, 'U' not recognised."""
+
+    def __init__(self, repo: Repo, mod, is_source) -> None:
+        self.repo, self.mod, self.is_source = repo, mod, is_source
+        self.why: List[Tuple[ast.AST, str]] = []
+
+    def _note(self, node: ast.AST, text: str, quiet: bool) -> None:
+        if not quiet:
+            self.why.append((node, text))
+
+    def mentions(self, e: ast.AST, env: Dict[str, str], fn: ast.AST) -> bool:
+        for x in ast.walk(e):
+            if self.is_source(x):
+                return True
+            if isinstance(x, ast.Name) and self.name_val(x.id, env, fn, 0, True) in ("T", "F", "N"):
+                if env.get(x.id, "?") != "D":
+                    return True
+        return False
+
+    def name_val(self, name: str, env: Dict[str, str], fn: ast.AST, depth: int, quiet: bool) -> str:
+        if name in env:
+            return env[name]
+        if depth > 6:
+            return "U"
+        defs = [n for n in walk_no_nested(fn) if isinstance(n, (ast.Assign, ast.AnnAssign)) and n.value is not None and any(isinstance(t, ast.Name) and t.id == name for t in (n.targets if isinstance(n, ast.Assign) else [n.target]))]
+        if not defs:
+            return "D"
+        env = dict(env)
+        env[name] = "D"  # cut cycles
+        vals: List[str] = []
+        strong = False
+        for d in defs:
+            env2 = dict(env)
+            earlier = [o for o in defs if o is not d and o.lineno < d.lineno]
+            if name in _loads(d.value) and earlier:
+                ks = [self.val(o.value, env, fn, depth + 1, True) for o in earlier]
+                env2[name] = "N" if "N" in ks else "T" if "T" in ks else "U" if "U" in ks else "F" if "F" in ks else "D"
+            v = self.val(d.value, env2, fn, depth + 1, quiet)
+            vals.append(v)
+            if v == "T":
+                # a T definition counts when it is unconditional or guarded by presence tests only
+                guards = []
+                for a in _anc(d):
+                    if a is fn:
+                        break
+                    if isinstance(a, (ast.If, ast.While)):
+                        guards.append(a.test)
+                    elif isinstance(a, (ast.ExceptHandler, ast.For)):
+                        guards.append(None)
+                if all(t is not None and _presence_test(t) for t in guards):
+                    strong = True
+        if "N" in vals:
+            return "N"
+        if "U" in vals:
+            return "U"
+        if "T" in vals:
+            others = [d for d, v in zip(defs, vals) if v != "T"]
+            if not others:
+                return "T"
+            last_t = max(d.lineno for d, v in zip(defs, vals) if v == "T")
+            if strong and all(o.lineno < last_t for o in others):
+                return "T"  # a constant / default initialisation that the entry overrides
+            self._note(defs[0], f"`{name}` keeps the requested value only on some paths ({'; '.join(norm(d)[:40] for d in defs)})", quiet)
+            return "N"
+        return "F" if vals and all(v == "F" for v in vals) else "D"
+
+    def val(self, e: Optional[ast.AST], env: Dict[str, str], fn: ast.AST, depth: int = 0, quiet: bool = False) -> str:
+        if e is None or depth > 8:
+            return "U"
+        if self.is_source(e):
+            return "T"
+        if isinstance(e, ast.Constant):
+            return "T" if e.value else "F"
+        if isinstance(e, ast.Name):
+            return self.name_val(e.id, env, fn, depth, quiet)
+        if isinstance(e, ast.NamedExpr):
+            return self.val(e.value, env, fn, depth + 1, quiet)
+        if isinstance(e, ast.UnaryOp) and isinstance(e.op, ast.Not):
+            v = self.val(e.operand, env, fn, depth + 1, quiet)
+            return {"T": "F", "F": "T"}.get(v, v)
+        if isinstance(e, ast.BoolOp):
+            vs = [self.val(x, env, fn, depth + 1, quiet) for x in e.values]
+            if isinstance(e.op, ast.Or):
+                if "T" in vs:
+                    return "T"
+                if all(v == "F" for v in vs):
+                    return "F"
+                return "N" if "N" in vs else "U" if "U" in vs else "D"
+            if "F" in vs:
+                return "F"
+            if all(v == "T" for v in vs):
+                return "T"
+            if "N" in vs:
+                return "N"
+            if "U" in vs:
+                return "U"
+            if "T" in vs:  # <request> and <something else>
+                other = next(x for x, v in zip(e.values, vs) if v == "D")
+                self._note(e, f"`{norm(e)[:80]}` honours the request only when `{norm(other)[:50]}` also holds", quiet)
+                return "N"
+            return "D"
+        if isinstance(e, ast.IfExp):
+            t = self.val(e.test, env, fn, depth + 1, quiet)
+            b, o = self.val(e.body, env, fn, depth + 1, quiet), self.val(e.orelse, env, fn, depth + 1, quiet)
+            if t == "T":
+                return b
+            if t == "F":
+                return o
+            if b == o and b in ("T", "F", "D"):
+                return b
+            if t == "U" or "U" in (b, o):
+                return "U"
+            if t == "D" and "T" not in (b, o) and "N" not in (b, o):
+                return "D"
+            if t == "D":
+                self._note(e.test, f"`{norm(e)[:80]}` honours the request only depending on `{norm(e.test)[:50]}`", quiet)
+            return "N"
+        if isinstance(e, ast.Compare):
+            if len(e.ops) == 1:
+                l, op, rgt = e.left, e.ops[0], e.comparators[0]
+                none_r = isinstance(rgt, ast.Constant) and rgt.value is None
+                none_l = isinstance(l, ast.Constant) and l.value is None
+                if none_r or none_l:
+                    v = self.val(l if none_r else rgt, env, fn, depth + 1, True)
+                    if v == "T":  # a truthy value is not None
+                        return "F" if isinstance(op, (ast.Is, ast.Eq)) else "T" if isinstance(op, (ast.IsNot, ast.NotEq)) else "U"
+                if isinstance(op, (ast.In, ast.NotIn)) and _const_key(l, DRY_KEY):
+                    return "T" if isinstance(op, ast.In) else "F"  # the entry is present
+            if self.mentions(e, env, fn):
+                self._note(e, f"`{norm(e)[:80]}` compares the configured value with particular values: other truthy spellings of the request (1, 'y', any non-empty value - all of which `if <entry>:` honoured) come out false", quiet)
+                return "N"
+            return "D"
+        if isinstance(e, ast.Call):
+            cn = call_name(e) or ""
+            if cn in ("bool", "builtins.bool") and len(e.args) == 1 and not e.keywords:
+                return self.val(e.args[0], env, fn, depth + 1, quiet)
+            if not self.mentions(e, env, fn):
+                return "D"
+            if cn in ("isinstance", "type", "issubclass"):
+                self._note(e, f"`{norm(e)[:80]}` makes the outcome depend on the type of the configured value", quiet)
+                return "N"
+            for m, node in self.repo.resolve_call(self.mod, e):
+                if isinstance(node, FuncNode):
+                    b = _bind_call_args(e, node)
+                    env2 = {p: self.val(a, env, fn, depth + 1, quiet) for p, a in b.items()}
+                    for p in [a.arg for a in node.args.posonlyargs + node.args.args + node.args.kwonlyargs]:
+                        env2.setdefault(p, "D")
+                    rets = [x.value for x in walk_no_nested(node) if isinstance(x, ast.Return) and x.value is not None]
+                    vs = [self.val(rv, env2, node, depth + 1, quiet) for rv in rets]
+                    if vs:
+                        return "N" if "N" in vs else "U" if "U" in vs else "T" if all(v == "T" for v in vs) else "F" if all(v == "F" for v in vs) else "N" if "T" in vs and "F" in vs else "U"
+            return "U"
+        if isinstance(e, (ast.Attribute, ast.Subscript)):
+            return "U" if self.mentions(e, env, fn) else "D"
+        return "U"
+
+
+def dry_run_request_rule(repo: Repo, R: Report, run_fn: ast.AST) -> None:
+    """`_run` leaves before anything executes when `pipeline_cfg.run_space.dry_run` is truthy.  The request
+    is the `dry_run` entry of the run_space block (from the file, --set, or written by --run-space-dry-run):
+    the gate honours it only if the parser stores a value that is truthy whenever the entry is - not one
+    that survives only for particular spellings - and the CLI writes the entry whenever the flag is given."""
+    from ..normal import nfunc
+
+    r = R.rule("C17-D1-dry-run-request-reaches-gate", "the value the parser stores as run_space.dry_run is truthy for every truthy `dry_run` entry of the run_space block (the entry itself / bool(entry) / an equivalent; never `is True`, `== ...`, membership in a list of spellings, a type test or a conjunction with another condition), and _run writes a truthy `dry_run` entry on every path to the parser when --run-space-dry-run is given: otherwise `if pipeline_cfg.run_space.dry_run:` is false for a requested dry run and every planned run executes", 2)
+    mod = repo.module(LOADER)
+    sites = 0
+    for qual, node in list(mod.defs.items()):
+        if not isinstance(node, FuncNode):
+            continue
+        raw_hit = any((isinstance(n, ast.Attribute) and n.attr == DRY_KEY and isinstance(n.ctx, ast.Store)) or (isinstance(n, ast.keyword) and n.arg == DRY_KEY) for n in walk_no_nested(node))
+        if not raw_hit:
+            continue
+        try:
+            nf = nfunc(repo, LOADER, qual, consts=False)
+        except AnalysisError:
+            nf = node
+        stores: List[Tuple[ast.AST, ast.AST]] = []
+        for n in walk_no_nested(nf):
+            if isinstance(n, (ast.Assign, ast.AnnAssign)) and n.value is not None:
+                tgts = n.targets if isinstance(n, ast.Assign) else [n.target]
+                if any(isinstance(t, ast.Attribute) and t.attr == DRY_KEY for t in tgts):
+                    stores.append((n, n.value))
+            elif isinstance(n, ast.Call):
+                for k in n.keywords:
+                    if k.arg == DRY_KEY and (call_name(n) or "").split(".")[-1][:1].isupper():
+                        stores.append((n, k.value))
+        verdicts = []
+        for st, val in stores:
+            tf = _TruthFlow(repo, mod, _dry_entry)
+            verdicts.append((st, val, tf.val(val, {}, nf), tf))
+
+        def presence_only(st: ast.AST) -> bool:
+            for a in _anc(st):
+                if a is nf:
+                    break
+                if isinstance(a, (ast.If, ast.While)) and not _presence_test(a.test):
+                    return False
+                if isinstance(a, (ast.For, ast.AsyncFor, ast.ExceptHandler)):
+                    return False
+            return True
+
+        strong_t = [st.lineno for st, _v, v, _tf in verdicts if v == "T" and presence_only(st)]
+        for st, val, v, tf in verdicts:
+            if v in ("D", "F") and any(isinstance(a, ast.ExceptHandler) for a in _anc(st)):
+                continue
+            if v in ("D", "F") and strong_t and st.lineno < max(strong_t) and not any(isinstance(a, (ast.If, ast.While, ast.For)) for a in _anc(st) if a is not nf):
+                continue  # a default that the entry, when present, overrides afterwards
+            sites += 1
+            line = getattr(st, "lineno", 0)
+            tail = "a requested run-space dry run is then parsed as 'not requested', `if pipeline_cfg.run_space.dry_run:` in _run is skipped and every planned run is executed (sink output, trace files) instead of the plan being printed"
+            if v == "T":
+                R.ok(r, LOADER, qual, norm(st)[:100], "", line)
+            elif v == "U":
+                raise AnalysisError(f"{qual}: how `{norm(st)[:80]}` obtains the flag from the '{DRY_KEY}' entry is not recognised")
+            elif v == "N":
+                node_, why = tf.why[0] if tf.why else (st, f"`{norm(val)[:70]}` is not truthy for every truthy entry")
+                R.violation(r, LOADER, qual, norm(st)[:100], f"{why}: {tail}", getattr(node_, "lineno", line) if getattr(node_, "lineno", 0) else line)
+            else:
+                R.violation(r, LOADER, qual, norm(st)[:100], f"the stored flag does not come from the '{DRY_KEY}' entry of the run_space block (or is its negation): {tail}", line)
+    if sites == 0:
+        raise AnalysisError(f"{LOADER}: no statement stores the run-space dry-run flag ('{DRY_KEY}')")
+    # ---- CLI side: --run-space-dry-run writes the entry on every path that reaches the parser
+    cli_mod = repo.module(CLI)
+    dest = None
+    for c in ast.walk(cli_mod.tree):
+        if isinstance(c, ast.Call) and call_attr(c) == "add_argument" and any(isinstance(a, ast.Constant) and a.value == "--run-space-dry-run" for a in c.args):
+            d = kwarg(c, "dest")
+            dest = d.value if isinstance(d, ast.Constant) and isinstance(d.value, str) else "run_space_dry_run"
+    if dest is None:
+        raise AnalysisError("cli: the --run-space-dry-run option is not declared")
+    flag = f"args.{dest}"
+    nf_run = _run_normal_form(repo, run_fn)
+    g = CFG(nf_run)
+
+    def given(e: ast.AST) -> Optional[bool]:
+        if dotted_name(e) == flag:
+            return True
+        if isinstance(e, ast.Call) and call_name(e) == "bool" and len(e.args) == 1 and dotted_name(e.args[0]) == flag:
+            return True
+        if isinstance(e, ast.Compare) and len(e.ops) == 1 and dotted_name(e.left) == flag and isinstance(e.comparators[0], ast.Constant):
+            c, op = e.comparators[0].value, e.ops[0]
+            pos, neg = isinstance(op, (ast.Is, ast.Eq)), isinstance(op, (ast.IsNot, ast.NotEq))
+            if c is True and (pos or neg):
+                return pos  # argparse store_true: the flag is a real bool
+            if c is False and (pos or neg):
+                return neg
+            if c is None and pos:
+                return False
+        return None
+
+    def not_given(e: ast.AST) -> Optional[bool]:
+        v = given(e)
+        return None if v is None else (not v)
+
+    good_nodes: Set[int] = set()
+    first_line = run_fn.lineno
+    for n in walk_no_nested(nf_run):
+        if isinstance(n, ast.Assign) and len(n.targets) == 1 and isinstance(n.targets[0], ast.Subscript) and _const_key(n.targets[0].slice, DRY_KEY):
+            v = n.value
+            first_line = n.lineno
+            if (isinstance(v, ast.Constant) and bool(v.value)) or given(v) is True:
+                good_nodes |= set(g.nodes_for(n))
+            elif flag in [dotted_name(x) for x in ast.walk(v) if isinstance(x, ast.Attribute)]:
+                R.violation(r, CLI, "_run", norm(n)[:100], f"with `{flag}` given, the value written as the '{DRY_KEY}' entry is `{norm(v)[:60]}`, which is not guaranteed truthy: the dry-run gate stays open and the runs execute", n.lineno)
+    parse_nodes = [n.id for n in g.nodes if n.part is not None and any(call_attr(c) == "parse_pipeline_config" for c in calls_in(n.part))]
+    if not parse_nodes:
+        raise AnalysisError("_run: parse_pipeline_config(...) not found in the control-flow graph")
+    # paths on which the flag is known to be unset do not count
+    blocked_edges = {(n.id, lab) for n in g.nodes if n.kind in ("if", "while") and n.part is not None for lab in edges_guaranteeing(n.part, not_given)}
+    seen = g.reach([g.entry], blocked=good_nodes, blocked_edges=blocked_edges)
+    hit = [p for p in parse_nodes if p in seen]
+    R.check(not hit, r, CLI, "_run", f"`{flag}` given -> a truthy '{DRY_KEY}' entry is written before parse_pipeline_config", f"with `{flag}` given, the parser can be reached without `<run_space section>['{DRY_KEY}'] = True` having been executed (the store is missing, skipped on some path, made under another condition, or does not overwrite a configured value): the flag is ignored, the dry-run gate stays open and every planned run executes", first_line, g.path_to(seen, hit[0]) if hit else None)
+
+
+# ---------------------------------------------------------------------------------------------
+# D1: an invalid (length-mismatched) run space is rejected, not silently truncated (round 4)
+# ---------------------------------------------------------------------------------------------
+_LEN_TRANSPARENT = {"len", "set", "frozenset", "list", "tuple", "sorted", "reversed", "sum", "min", "max", "any", "all", "enumerate", "zip", "range", "dict", "iter", "bool", "int", "abs"}
+_LEN_KEEPING = {"sorted", "list", "tuple", "reversed"}
+
+
+def _bindings(fn: ast.AST) -> Dict[str, List[ast.AST]]:
+    """local name -> expressions it takes its value(s) from (assignments, for targets, comprehension targets)."""
+    out: Dict[str, List[ast.AST]] = {}
+    for n in walk_no_nested(fn):
+        if isinstance(n, (ast.Assign, ast.AnnAssign)) and getattr(n, "value", None) is not None:
+            tgts = n.targets if isinstance(n, ast.Assign) else [n.target]
+            for t in tgts:
+                if isinstance(t, ast.Name):
+                    out.setdefault(t.id, []).append(n.value)
+        elif isinstance(n, (ast.For, ast.AsyncFor, ast.comprehension)):
+            for names, src in _bind(n.target, n.iter):
+                for nm in names:
+                    out.setdefault(nm, []).append(src)
+    return out
+
+
+def _len_flow(e: ast.AST, binds: Dict[str, List[ast.AST]], compares: Optional[List[ast.AST]] = None) -> Tuple[Set[str], List[ast.AST]]:
+    """(names whose size / elements *e* is made of, arguments of the len() calls met on the way): names are
+    followed through their definitions as long as those only regroup sequences (comprehensions, list(),
+    sorted(), conditional choice ...); a definition by any other call is where a name's history stops."""
+    names: Set[str] = set()
+    len_args: List[ast.AST] = []
+    todo: List[ast.AST] = [e]
+    done: Set[int] = set()
+    while todo:
+        x = todo.pop()
+        if id(x) in done:
+            continue
+        done.add(id(x))
+        if isinstance(x, ast.Name):
+            if x.id not in names:
+                names.add(x.id)
+                todo.extend(binds.get(x.id, []))
+        elif isinstance(x, ast.Call):
+            cn = call_name(x) or ""
+            if cn == "len" and len(x.args) == 1:
+                len_args.append(x.args[0])
+            if cn in _LEN_TRANSPARENT or (isinstance(x.func, ast.Attribute) and x.func.attr in ("items", "values", "keys", "copy") and not x.args):
+                todo.extend(a.value if isinstance(a, ast.Starred) else a for a in x.args)
+                if isinstance(x.func, ast.Attribute):
+                    todo.append(x.func.value)
+        elif isinstance(x, ast.IfExp):
+            todo.extend([x.body, x.orelse])
+        elif isinstance(x, ast.Compare):
+            if compares is not None:
+                compares.append(x)
+            todo.extend(ast.iter_child_nodes(x))
+        elif isinstance(x, (ast.ListComp, ast.SetComp, ast.GeneratorExp, ast.DictComp)):
+            todo.extend(gen.iter for gen in x.generators)
+            todo.extend([x.key, x.value] if isinstance(x, ast.DictComp) else [x.elt])
+        elif isinstance(x, ast.Lambda):
+            pass
+        else:
+            todo.extend(ast.iter_child_nodes(x))
+    return names, len_args
+
+
+def _mismatch_roots(test: ast.AST, binds: Dict[str, List[ast.AST]]) -> Set[str]:
+    """Names of the sequences whose lengths *test* compares WITH EACH OTHER: `len(set(<lengths>)) <op> <const>`,
+    or a comparison both sides of which are made of lengths (`len(a) != len(b)`, `n != lengths[0]`,
+    `min(sizes) != max(sizes)`).  A comparison of a length with something else (a cap, a constant) is not one."""
+    compares: List[ast.AST] = []
+    _len_flow(test, binds, compares)
+    roots: Set[str] = set()
+    for c in compares:
+        sides = [c.left] + list(c.comparators)
+        if len(sides) != 2:
+            continue
+        flows = [_len_flow(s, binds) for s in sides]
+        args: List[ast.AST] = []
+        if all(f[1] for f in flows):
+            args = flows[0][1] + flows[1][1]
+        else:
+            for s, other in ((sides[0], sides[1]), (sides[1], sides[0])):
+                if isinstance(other, ast.Constant) and isinstance(s, ast.Call) and call_name(s) == "len" and len(s.args) == 1:
+                    inner = s.args[0]
+                    is_set = isinstance(inner, (ast.SetComp, ast.Set)) or (isinstance(inner, ast.Call) and call_name(inner) in ("set", "frozenset")) or (isinstance(inner, ast.Name) and any(isinstance(d, (ast.SetComp, ast.Set)) or (isinstance(d, ast.Call) and call_name(d) in ("set", "frozenset")) for d in binds.get(inner.id, [])))
+                    if is_set:
+                        args = _len_flow(inner, binds)[1]
+        for a in args:
+            roots |= _len_flow(a, binds)[0]
+    return roots
+
+
+def _len_token(e: ast.AST, fn: ast.AST, binds: Dict[str, List[ast.AST]], depth: int = 0) -> str:
+    """A canonical text for 'the number of elements of e': equal tokens = equal lengths by construction."""
+    if depth > 6:
+        return ast.unparse(e)
+    if isinstance(e, ast.Name):
+        defs = binds.get(e.id, [])
+        if len(defs) == 1:
+            d = defs[0]
+            if isinstance(d, ast.Call) and (call_name(d) or "") in ("itertools.product", "product") and len(d.args) == 1 and isinstance(d.args[0], ast.Starred) and not d.keywords:
+                return _len_token(d.args[0].value, fn, binds, depth + 1)  # one element per factor
+            is_target = any(isinstance(n, (ast.For, ast.AsyncFor, ast.comprehension)) and e.id in _target_names(n.target) for n in walk_no_nested(fn))
+            if not is_target:
+                return _len_token(d, fn, binds, depth + 1)
+        return e.id
+    if isinstance(e, (ast.ListComp, ast.GeneratorExp)) and len(e.generators) == 1 and not e.generators[0].ifs:
+        return _len_token(e.generators[0].iter, fn, binds, depth + 1)
+    if isinstance(e, ast.Call) and (call_name(e) or "") in _LEN_KEEPING and len(e.args) == 1 and not isinstance(e.args[0], ast.Starred):
+        return _len_token(e.args[0], fn, binds, depth + 1)
+    if isinstance(e, ast.Call) and isinstance(e.func, ast.Attribute) and e.func.attr in ("keys", "values", "items") and not e.args:
+        return _len_token(e.func.value, fn, binds, depth + 1)
+    return ast.unparse(e)
+
+
+def _pairing_sites(fn: ast.AST, binds: Dict[str, List[ast.AST]]) -> List[Tuple[ast.AST, List[ast.AST], str]]:
+    """(node, paired sequences, description) for every construct that walks two or more sequences in
+    lock-step and stops at the shortest / at a bound taken from one of them."""
+    out: List[Tuple[ast.AST, List[ast.AST], str]] = []
+    for c in walk_no_nested(fn):
+        if isinstance(c, ast.Call) and (call_name(c) or "") in ("zip", "map", "builtins.zip"):
+            strict = kwarg(c, "strict")
+            if isinstance(strict, ast.Constant) and strict.value is True and any(isinstance(a, ast.Try) and any(isinstance(x, ast.Raise) for h in a.handlers for x in ast.walk(h)) and any(c is y for b in a.body for y in ast.walk(b)) for a in _anc(c)):
+                continue  # a mismatch raises ValueError, which the enclosing handler turns into the module's error
+            ops = list(c.args[1:] if call_name(c) == "map" else c.args)
+            starred = [a for a in ops if isinstance(a, ast.Starred)]
+            if len(ops) < 2 and not starred:
+                continue
+            if not starred and len({_len_token(a, fn, binds) for a in ops}) == 1:
+                continue  # equal lengths by construction
+            is_strict = isinstance(strict, ast.Constant) and strict.value is True
+            out.append((c, [a.value if isinstance(a, ast.Starred) else a for a in ops], f"`{norm(c)[:70]}` raises a bare ValueError on a length mismatch - not the configuration error `_run` maps to EXIT_CONFIG_ERROR (the CLI ends in a traceback)" if is_strict else f"`{norm(c)[:70]}` stops at the shortest operand"))
+    loops: List[Tuple[ast.AST, ast.AST, ast.AST, List[ast.AST]]] = []  # (node, target, iter, scope)
+    for n in walk_no_nested(fn):
+        if isinstance(n, (ast.For, ast.AsyncFor)):
+            loops.append((n, n.target, n.iter, list(n.body)))
+        elif isinstance(n, (ast.ListComp, ast.SetComp, ast.GeneratorExp, ast.DictComp)):
+            for i, gen in enumerate(n.generators):
+                scope: List[ast.AST] = [n.key, n.value] if isinstance(n, ast.DictComp) else [n.elt]
+                scope += list(gen.ifs)
+                for later in n.generators[i + 1:]:
+                    scope += [later.iter] + list(later.ifs)
+                loops.append((n, gen.target, gen.iter, scope))
+    for node, target, it, scope in loops:
+        if not isinstance(it, ast.Call):
+            continue
+        cn = call_name(it) or ""
+        extra: List[ast.AST] = []
+        if cn == "range" and isinstance(target, ast.Name):
+            idx = target.id
+        elif cn == "enumerate" and isinstance(target, (ast.Tuple, ast.List)) and len(target.elts) == 2 and isinstance(target.elts[0], ast.Name) and it.args:
+            idx = target.elts[0].id
+            extra = [it.args[0]]
+        else:
+            continue
+        inner: Set[str] = set()
+        bases: List[ast.AST] = []
+        for s in scope:
+            for x in ast.walk(s):
+                if isinstance(x, (ast.For, ast.AsyncFor, ast.comprehension)):
+                    inner |= set(_target_names(x.target))
+                elif isinstance(x, ast.Subscript) and isinstance(x.ctx, ast.Load) and isinstance(x.slice, ast.Name) and x.slice.id == idx:
+                    bases.append(x.value)
+        distinct: Dict[str, ast.AST] = {}
+        for b in extra + bases:
+            distinct.setdefault(ast.unparse(b), b)
+        if not bases:
+            continue
+        varying = [b for b in bases if _loads(b) & (inner - {idx})]
+        if len(distinct) >= 2 or varying:
+            what = ", ".join(f"`{t}[{idx}]`" for t in list(distinct)[:3])
+            out.append((node, list(distinct.values()), f"the loop over `{norm(it)[:40]}` reads {what} position by position"))
+    return out
+
+
+def position_merge_rule(repo: Repo, R: Report) -> None:
+    """A run space whose by_position lists / columns / blocks differ in length is documented as invalid;
+    `_run` rejects it (EXIT_CONFIG_ERROR, nothing runs) only because `expand_run_space` *raises*.  So
+    wherever the expansion pairs two or more sequences position by position, a length test that raises
+    has to come first: zip() (or an index bounded by one operand) would otherwise silently cut the run
+    space down to the shorter side and `semantiva run` would execute it and exit 0."""
+    from ..engine import qualname_of
+    from ..normal import nfunc
+
+    r = R.rule("C17-D1-position-merge-length-guarded", "the expansion gate rejects a run space with mismatched lengths instead of truncating it: every place in expand_run_space (and the helpers it calls) that walks two or more sequences in lock-step - zip(...) without strict=True over operands that are not equally long by construction, an index loop reading several sequences at the same position - is dominated by a raising test that compares the lengths of all the sequences it pairs with each other", 2)
+    mod = repo.module(RUN_SPACE)
+    top = repo.func(RUN_SPACE, "expand_run_space")
+    funcs: List[ast.AST] = []
+    todo = [top]
+    while todo:
+        f = todo.pop()
+        if any(f is x for x in funcs):
+            continue
+        funcs.append(f)
+        for c in calls_in(f, include_nested=True):
+            for m, node in repo.resolve_call(mod, c):
+                if m.rel == RUN_SPACE and isinstance(node, FuncNode):
+                    todo.append(node)
+    reported: Set[Tuple[int, int]] = set()
+    for f in funcs:
+        qn = qualname_of(f)
+        try:
+            nf = nfunc(repo, RUN_SPACE, qn, consts=False)
+        except Exception:
+            nf = f
+        binds = _bindings(nf)
+        sites = _pairing_sites(nf, binds)
+        if not sites:
+            continue
+        g = CFG(nf)
+        raise_ids = {n.id for n in g.nodes if n.kind == "stmt" and isinstance(n.ast, ast.Raise)}
+        guards: List[Tuple[object, Set[str], Dict[str, Set[int]]]] = []
+        for n in g.nodes:
+            if n.kind != "if" or n.part is None:
+                continue
+            roots = _mismatch_roots(n.part, binds)
+            if not roots:
+                continue
+            branches: Dict[str, Set[int]] = {}
+            for lab in ("T", "F"):
+                succ = [t for t, l in g.succ[n.id] if l == lab]
+                seen = set(g.reach(succ)) if succ else set()
+                if succ and g.ret_exit not in seen and seen & raise_ids:
+                    branches[lab] = seen
+            if branches:
+                guards.append((n, roots, branches))
+        for node, operands, what in sites:
+            key = (getattr(node, "lineno", 0), getattr(node, "col_offset", 0))
+            if key in reported:
+                continue
+            reported.add(key)
+            st = node if isinstance(node, ast.stmt) else stmt_of(node)
+            ids = g.nodes_for(st)
+            if not ids:
+                raise AnalysisError(f"{qn}: `{norm(node)[:60]}` not found in the control-flow graph")
+            covered: Set[str] = set()
+            for gn, roots, branches in guards:
+                if gn.id in ids:
+                    continue
+                if all(g.dominated_by_node(i, gn.id) for i in ids) and any(not (set(ids) & seen) for seen in branches.values()):
+                    covered |= roots
+            loose = [o for o in operands if not (_len_flow(o, binds)[0] & covered)]
+            R.check(not loose, r, RUN_SPACE, qn, norm(node)[:100], (f"{what}, and no raising test that compares lengths with each other covers `{norm(loose[0])[:50]}` before it: a by_position run space whose sides differ in length (documented: 'Mismatched lengths under any zip semantics' is a configuration error) is no longer rejected by expand_run_space - `_run`'s `return EXIT_CONFIG_ERROR` never fires, the run space is cut down to the shorter side and executed (exit 0, sink output, trace files); the dry runs report the invalid plan as valid" if loose else ""), getattr(node, "lineno", 0))
